@@ -309,6 +309,20 @@ def alias_update(ns, home, mapping):
     return ns
 
 
+class _ModProxy:
+    """a library module as seen from one pyins module (`import scipy.linalg as sla`): the stubbed names, everything else real"""
+
+    def __init__(self, real, overrides):
+        self.__dict__["_real"] = real
+        self.__dict__["_over"] = dict(overrides)
+
+    def __getattr__(self, name):
+        over = self.__dict__["_over"]
+        if name in over:
+            return over[name]
+        return getattr(self.__dict__["_real"], name)
+
+
 @contextlib.contextmanager
 def patched(*patches):
     """patched((module_or_dict, {name: value, ...}), ...) -- rebind module globals (or object attributes) for the duration of
@@ -331,14 +345,25 @@ def patched(*patches):
                 if isinstance(target, _types.ModuleType) and (getattr(target, "__name__", "") or "").startswith("pyins"):
                     orig = have if have is not missing else (_external_original(k) if _external_original(k) is not None else _pyins_original(k))
                     if orig is not missing and orig is not None and orig is not v:
+                        if have is missing and not isinstance(orig, _types.ModuleType):
+                            for gk, gv in list(vars(target).items()):
+                                real = gv.__dict__["_real"] if isinstance(gv, _ModProxy) else gv
+                                if isinstance(real, _types.ModuleType) and not (getattr(real, "__name__", "") or "").startswith("pyins") \
+                                        and getattr(real, k, None) is orig:
+                                    if isinstance(gv, _ModProxy):
+                                        gv.__dict__["_over"][k] = v
+                                    else:
+                                        saved.append((target, gk, gv, False))
+                                        setattr(target, gk, _ModProxy(real, {k: v}))
                         for mod, alias in _aliases(orig):
                             if mod is target and alias == k:
                                 continue
-                            # the name is absent from the target (imported under another name there): only the target's aliases
-                            if have is missing and mod is not target:
+                            # the name is absent from the target: it is imported under another name there (alias in the target),
+                            # or reached as an attribute of another pyins module (`_kernel.integrate`): that module's own binding
+                            if have is missing and mod is not target and getattr(orig, "__module__", None) != mod.__name__:
                                 continue
                             if getattr(orig, "__module__", None) == mod.__name__ and not isinstance(orig, _types.ModuleType):
-                                if mod is not target:
+                                if mod is not target and have is not missing:
                                     continue
                             saved.append((mod, alias, orig, False))
                             setattr(mod, alias, v)
